@@ -195,7 +195,25 @@ func (f *family) honest(sc *scenario, variant string) (*recorded, *exchange) {
 		}
 		return nil, ex
 	}
-	if out.Hung || out.Panic != nil || out.Err != nil {
+	if !out.Hung && out.Panic == nil && out.Err != nil {
+		// on the unchanged tree every honest exchange of the table succeeds, so
+		// this row cannot pass: the run is INCONCLUSIVE unless a violation is
+		// found - but it is not fatal. The variant gets no field table, the
+		// forgery / lenient / foreign rows (which need no recording) still run:
+		// a client that no longer gets through to the honest host may well be
+		// accepted by a lenient one, and that is the violation to find.
+		f.r.Inconclusive(fmt.Sprintf("honest %s/%s exchange failed (it succeeds on the unchanged tree): %v", sc.rpc, variant, out.Err))
+		f.r.Count("honest_exchange_failed:"+sc.rpc, 1)
+		if ex.after != nil {
+			if err := ex.after(); err != nil {
+				harnessFail(f.r, "after honest exchange", err)
+				f.dead = true
+				return nil, nil
+			}
+		}
+		return nil, ex
+	}
+	if out.Hung || out.Panic != nil {
 		harnessFail(f.r, fmt.Sprintf("honest %s/%s exchange failed", sc.rpc, variant), fmt.Errorf("hung=%v panic=%v err=%v", out.Hung, out.Panic, out.Err))
 		f.dead = true
 		return nil, nil
@@ -574,7 +592,7 @@ func (f *family) runLenient(sc *scenario) {
 // ---- C10 entry ----
 
 func runC10(r *mon.Run, replay string) {
-	r.Rule("fault table = RPC x host->renter message x field (reflection walk of the typed message: every byte array, currency, integer, bool, string, time, slice (first and last element), pointer, resolution type) x operator {flip low/high bit, zero, max, +1, -1, truncate, extend, duplicate, swap neighbours, swap with the same field of another recorded exchange} plus message-level faults {RPCError injection, cut before/after, half-sent message, trailing garbage, whole message of another exchange, silent host, raw sector data flip/truncate/extend/zero} plus re-signing with the real host key after altering the signed object; plus coherent alternatives built by the man-in-the-middle with core's proof builders (valid proof for another range / leaf / root set, alone and with a forged final signature); plus a LENIENT hostile host holding the real host key: for caller parameters that are well-formed and ill-formed (free index lists with duplicates in every position pattern, out of order, out of range, empty; sector-roots ranges on an empty contract, at and beyond the end, zero length, overflowing; reads with unaligned offset / unaligned end / zero length / beyond the sector; writes of unaligned or zero length; empty / repeated / unknown append lists) it executes the request exactly as received where the honest server refuses it, builds the matching proof and countersigns, and - per request - also answers with a proof built for ANOTHER index set / range than the requested one (an in-range substitute for an out-of-range index or range, one appended root more or fewer) or with one subtree hash / leaf hash / root / accepted flag too few or too many; every client call is guarded, a panic is the violation client-panic:<rpc>; reads also cover zero-tailed, zero-headed and all-zero sectors (whole and partial), answered truncated at every 64-byte-aligned class (one leaf, inside the data, at and just behind the data/zero boundary, deep inside the zeros, one leaf short) with an empty proof, the honest proof of the shorter range, or the proof of the requested range; plus HISTORIES append -> free (some) -> append / free / roots / fund / replenish / renew / refresh, so that contracts with Capacity > Filesize go through every revision-returning RPC, and forgers that recompute the append answer consistently for a WRONG old leaf count (capacity-shaped tree, file size +-1, +2, double, half, zero: subtree roots, new root and final signature) and the free answer over the halved view of the tree (same root, ceil(n/2) leaves); when the client rejects an honest, model-correct answer the variant is counted (honest_answer_rejected_by_client:<rpc>), gets no field table, and the forgery rows still decide; plus a FOREIGN PEER: every variant of every RPC is run over a transport whose PeerKey() is not the host key of the contract, once with a peer that runs the exchange correctly (the honest server does) but countersigns every revision / contract / renewal / price table with its transport key, once with the genuine host signatures - success must still carry a host signature valid under the CONTRACT's host key - the oracle then compares the result with a reference model of the CALLER's parameters (set semantics for free, the renter-known roots for sector roots, the stored bytes for read), independent of the client's own arithmetic; the table is enumerated completely (exhaustive over the table), thorough adds PRNG double mutations; a case is non-trivial when the fault changed the bytes the renter received; oracle only when the client call returned success")
+	r.Rule("fault table = RPC x host->renter message x field (reflection walk of the typed message: every byte array, currency, integer, bool, string, time, slice (first and last element), pointer, resolution type) x operator {flip low/high bit, zero, max, +1, -1, truncate, extend, duplicate, swap neighbours, swap with the same field of another recorded exchange} plus message-level faults {RPCError injection, cut before/after, half-sent message, trailing garbage, whole message of another exchange, silent host, raw sector data flip/truncate/extend/zero} plus re-signing with the real host key after altering the signed object; plus coherent alternatives built by the man-in-the-middle with core's proof builders (valid proof for another range / leaf / root set, alone and with a forged final signature); plus a LENIENT hostile host holding the real host key: for caller parameters that are well-formed and ill-formed (free index lists with duplicates in every position pattern, out of order, out of range, empty; sector-roots ranges on an empty contract, at and beyond the end, zero length, overflowing; reads with unaligned offset / unaligned end / zero length / beyond the sector; writes of unaligned or zero length; empty / repeated / unknown append lists) it executes the request exactly as received where the honest server refuses it, builds the matching proof and countersigns, and - per request - also answers with a proof built for ANOTHER index set / range than the requested one (an in-range substitute for an out-of-range index or range, one appended root more or fewer) or with one subtree hash / leaf hash / root / accepted flag too few or too many; for free and append its final answer COUNTERSIGNS WHICHEVER REVISION THE RENTER ACTUALLY SIGNED (it tries every deletion / append count until the renter's signature verifies, then signs that with its real key), so a client whose signed revision disagrees with its own request and proof (duplicate indices counted twice, ...) is refused by the honest host and accepted by this one; every client call is guarded, a panic is the violation client-panic:<rpc>; an honest exchange that fails makes the run INCONCLUSIVE (it succeeds on the unchanged tree) but is not fatal: the rows that need no recording still run and a violation found there decides; reads also cover zero-tailed, zero-headed and all-zero sectors (whole and partial), answered truncated at every 64-byte-aligned class (one leaf, inside the data, at and just behind the data/zero boundary, deep inside the zeros, one leaf short) with an empty proof, the honest proof of the shorter range, or the proof of the requested range; plus HISTORIES append -> free (some) -> append / free / roots / fund / replenish / renew / refresh, so that contracts with Capacity > Filesize go through every revision-returning RPC, and forgers that recompute the append answer consistently for a WRONG old leaf count (capacity-shaped tree, file size +-1, +2, double, half, zero: subtree roots, new root and final signature) and the free answer over the halved view of the tree (same root, ceil(n/2) leaves); when the client rejects an honest, model-correct answer the variant is counted (honest_answer_rejected_by_client:<rpc>), gets no field table, and the forgery rows still decide; plus a FOREIGN PEER: every variant of every RPC is run over a transport whose PeerKey() is not the host key of the contract, once with a peer that runs the exchange correctly (the honest server does) but countersigns every revision / contract / renewal / price table with its transport key, once with the genuine host signatures - success must still carry a host signature valid under the CONTRACT's host key - the oracle then compares the result with a reference model of the CALLER's parameters (set semantics for free, the renter-known roots for sector roots, the stored bytes for read), independent of the client's own arithmetic; the table is enumerated completely (exhaustive over the table), thorough adds PRNG double mutations; a case is non-trivial when the fault changed the bytes the renter received; oracle only when the client call returned success")
 	r.Assume("core (rhp/v4 merkle, sighash, Revise* functions) is the trusted base for computing expected roots and successor revisions")
 	r.Assume("the in-repo server, EphemeralContractor and EphemeralSectorStore are the honest peer behind the man-in-the-middle; transports' own framing (siamux/quic) is not mutated")
 	r.Extra("exhaustive", true)
@@ -680,6 +698,7 @@ func runC10(r *mon.Run, replay string) {
 		floorUnlessRejected("append", "lenient_host_cases:append", 35)
 		r.Floor("lenient_host_cases:write", 4)
 		r.Floor("lenient_host:client_success", 10)
+		r.Floor("lenient_host:countersigned_what_the_honest_host_refused:free", 50)
 		r.Floor("lenient_host:answered_where_honest_host_differs", 3)
 		r.Floor("lenient_host:client_rejected_parameters_before_dialing", 10)
 	}
@@ -1569,6 +1588,25 @@ func buildAppendFreeFamily(f *family) error {
 				}); p != nil || err != nil {
 					return false
 				}
+				// ... or whichever other count the renter's signature verifies for
+				waitR1 := time.Duration(0)
+				if m.Synthetic {
+					waitR1 = 2 * time.Second
+				}
+				if r1 := seen.wait(rhpmitm.RenterToHost, 1, waitR1, m.RenterClosed); r1 != nil && r1.Err == nil {
+					sig := r1.Obj.(*rhp4.RPCAppendSectorsSecondResponse).RenterSignature
+					cs := l.HostNode.CM.TipState()
+					for k := 0; k <= len(r0.Sectors)+2 && !l.RenterKey.PublicKey().VerifyHash(cs.ContractSigHash(rev), sig); k++ {
+						var alt types.V2FileContract
+						var aerr error
+						if p := mon.Guard(func() {
+							alt, _, aerr = rhp4.ReviseForAppendSectors(prev.Revision, r0.Prices, resp.NewMerkleRoot, uint64(k))
+						}); p == nil && aerr == nil && l.RenterKey.PublicKey().VerifyHash(cs.ContractSigHash(alt), sig) {
+							rev = alt
+							f.r.Count("lenient_host:countersigned_a_revision_for_another_count_than_requested", 1)
+						}
+					}
+				}
 				m.Err, m.Obj = nil, &rhp4.RPCAppendSectorsThirdResponse{HostSignature: l.HostKey.SignHash(l.HostNode.CM.TipState().ContractSigHash(rev))}
 				return true
 			}
@@ -1737,28 +1775,35 @@ func buildAppendFreeFamily(f *family) error {
 		"2:lastone": {2},
 		// caller lists for the lenient host: duplicates in every position pattern,
 		// out of order, out of range
-		"1:nonadj":     {1, 3, 1},
-		"1:nonadj4":    {0, 2, 4, 2},
-		"1:nonadj-asc": {1, 2, 3, 1},
-		"1:alleq":      {2, 2, 2},
-		"1:adjdup":     {3, 3, 1},
-		"1:duplast":    {4, 1, 4},
-		"1:dupfirst":   {0, 3, 0},
-		"1:pairs":      {3, 0, 3, 0},
-		"1:unsorted":   {0, 4, 2},
-		"1:oob":        {7},
-		"1:oob-eq":     {5},
-		"1:oob-mixed":  {1, 9},
-		"1:empty":      {},
-		"2:nonadj":     {0, 2, 0},
-		"5:only":       {0},
-		"5:cap-index":  {1},
-		"3:oob5":       {5},
-		"3:oob2":       {2},
-		"3:oob-mixed":  {0, 5},
-		"3:oob-huge":   {1 << 62},
-		"3:inrange":    {1},
-		"1:oob-huge":   {1<<64 - 1},
+		"1:nonadj":      {1, 3, 1},
+		"1:nonadj4":     {0, 2, 4, 2},
+		"1:nonadj-asc":  {1, 2, 3, 1},
+		"1:alleq":       {2, 2, 2},
+		"1:adjdup":      {3, 3, 1},
+		"1:duplast":     {4, 1, 4},
+		"1:dupfirst":    {0, 3, 0},
+		"1:pairs":       {3, 0, 3, 0},
+		"1:unsorted":    {0, 4, 2},
+		"1:oob":         {7},
+		"1:oob-eq":      {5},
+		"1:oob-mixed":   {1, 9},
+		"1:empty":       {},
+		"2:nonadj":      {0, 2, 0},
+		"1:pair":        {2, 2},
+		"1:pair-last":   {4, 4},
+		"1:aba-last":    {4, 2, 4},
+		"1:triple-last": {4, 4, 4},
+		"1:all-twice":   {0, 1, 2, 3, 4, 0, 1, 2, 3, 4},
+		"2:pair":        {1, 1},
+		"5:only-twice":  {0, 0},
+		"5:only":        {0},
+		"5:cap-index":   {1},
+		"3:oob5":        {5},
+		"3:oob2":        {2},
+		"3:oob-mixed":   {0, 5},
+		"3:oob-huge":    {1 << 62},
+		"3:inrange":     {1},
+		"1:oob-huge":    {1<<64 - 1},
 	}
 	// every request (in range and out of range, on a 2-sector and a 5-sector
 	// contract) against every way the host's proof can be built for another
@@ -1776,6 +1821,7 @@ func buildAppendFreeFamily(f *family) error {
 	}
 	fr := &scenario{rpc: "free", nHost: 2, variants: []string{"1:first", "1:two", "1:dup", "1:all", "2:lastone", "5:only"},
 		lenient: []string{"1:two", "1:nonadj", "1:nonadj4", "1:nonadj-asc", "1:alleq", "1:adjdup", "1:duplast", "1:dupfirst", "1:pairs", "1:unsorted", "1:oob", "1:oob-eq", "1:oob-mixed", "1:empty", "2:nonadj"}}
+	fr.lenient = append(fr.lenient, "1:dup", "1:pair", "1:pair-last", "1:aba-last", "1:triple-last", "1:all-twice", "2:pair", "5:only-twice")
 	fr.lenient = append(fr.lenient, freeLenientModes...)
 	// index 1 is inside the CAPACITY of the history contract, not inside its file
 	fr.lenient = append(fr.lenient, "5:only", "5:cap-index", "5:cap-index|sub-last", "5:cap-index|sub-mod")
@@ -1860,12 +1906,50 @@ func buildAppendFreeFamily(f *family) error {
 					return false
 				}
 				root := h0.Obj.(*rhp4.RPCFreeSectorsResponse).NewMerkleRoot
-				var rev types.V2FileContract
-				var err error
-				if p := mon.Guard(func() { rev, _, err = rhp4.ReviseForFreeSectors(prev.Revision, r0.Prices, root, len(r0.Indices)) }); p != nil || err != nil {
+				honestRefused := m.Err != nil || m.Synthetic
+				// it countersigns WHICHEVER revision the renter actually signed: it
+				// tries every deletion count until the renter's signature verifies
+				// (the count of the request first), then signs that with its real key
+				cs := l.HostNode.CM.TipState()
+				counts := []int{len(r0.Indices)}
+				for k := 0; k <= len(prevRoots)+len(idx)+2; k++ {
+					counts = append(counts, k)
+				}
+				var renterSig *types.Signature
+				// (a real final message means the renter's signature has passed
+				// already; for an invented one it may still be on its way)
+				waitR1 := time.Duration(0)
+				if m.Synthetic {
+					waitR1 = 2 * time.Second
+				}
+				if r1 := seen.wait(rhpmitm.RenterToHost, 1, waitR1, m.RenterClosed); r1 != nil && r1.Err == nil {
+					renterSig = &r1.Obj.(*rhp4.RPCFreeSectorsSecondResponse).RenterSignature
+				}
+				var chosen *types.V2FileContract
+				for _, k := range counts {
+					var rev types.V2FileContract
+					var err error
+					if p := mon.Guard(func() { rev, _, err = rhp4.ReviseForFreeSectors(prev.Revision, r0.Prices, root, k) }); p != nil || err != nil {
+						continue
+					}
+					if chosen == nil {
+						chosen = &rev // fallback: the request's count
+					}
+					if renterSig != nil && l.RenterKey.PublicKey().VerifyHash(cs.ContractSigHash(rev), *renterSig) {
+						chosen = &rev
+						if k != len(r0.Indices) {
+							f.r.Count("lenient_host:countersigned_a_revision_for_another_count_than_requested", 1)
+						}
+						break
+					}
+				}
+				if chosen == nil {
 					return false
 				}
-				m.Err, m.Obj = nil, &rhp4.RPCFreeSectorsThirdResponse{HostSignature: l.HostKey.SignHash(l.HostNode.CM.TipState().ContractSigHash(rev))}
+				if honestRefused {
+					f.r.Count("lenient_host:countersigned_what_the_honest_host_refused:free", 1)
+				}
+				m.Err, m.Obj = nil, &rhp4.RPCFreeSectorsThirdResponse{HostSignature: l.HostKey.SignHash(cs.ContractSigHash(*chosen))}
 				return true
 			}
 			// the index list the host executes: by default the list exactly as
